@@ -24,6 +24,7 @@ typedef struct {
     long bad_frees;                   /* free of unknown / already freed block */
     long redzone_hits;                /* damaged guard bytes seen at free / sweep */
     long failed_allocs;               /* injected failures delivered */
+    long null_frees;                  /* free(NULL): legal, counted only */
 } slu_v_ledger_t;
 void  slu_v_reset(void);                       /* forget everything (start of scenario) */
 void  slu_v_get(slu_v_ledger_t *out);
